@@ -50,7 +50,7 @@ def run(tier):
         rmods, _sk = corpus.repo_modules(tree, os.path.join(common.scratch(), "c12rmods"))
         # a spread of larger real modules (every 12th by size)
         rmods.sort(key=lambda sm: os.path.getsize(sm[1]))
-        mods += rmods[::12]
+        mods += rmods[::24]
     lmax = 8 if tier == "quick" else 12
     jobs = []
     sizes = {}
@@ -58,13 +58,16 @@ def run(tier):
         size = os.path.getsize(f)
         sizes[f] = size
         body_bits = (size - 32) * 8
+        # all 2^(L-2) patterns of every burst up to L = 12 only for files of the hand corpus (a few KB); the larger real
+        # modules get L = 8 (an 85 KB module x L = 12 is 1.4 billion loads for that one file)
+        flmax = lmax if size <= 8192 else min(lmax, 8)
         for fam, n in (("bit", body_bits), ("burst", body_bits), ("trunc", size), ("tail", 256), ("magic", 64)):
             # burst chunks are sized by work (offsets x 2^(Lmax-2) patterns): a chunk must stay far below its time limit
             # on a loaded machine
-            nchunks = 1 if n < 4096 else (8 if fam != "burst" else max(48, n // (4000 if lmax <= 8 else 600)))
+            nchunks = 1 if n < 4096 else (8 if fam != "burst" else max(48, n // (4000 if flmax <= 8 else 600)))
             step = (n + nchunks - 1) // nchunks
             for lo in range(0, n, step):
-                jobs.append((probe, f, fam, lmax, lo, min(n, lo + step)))
+                jobs.append((probe, f, fam, flmax, lo, min(n, lo + step)))
     evals = refused = 0
     fails = []
     fam_counts = {}
@@ -80,6 +83,8 @@ def run(tier):
         for l in out.splitlines():
             if l.startswith("FAIL"):
                 fails.append((f, l))
+        if rep.out_of_time():
+            break
     for f, l in fails[:200]:
         parts = l.split()
         files = {"fail.txt": l + "\n", "original.nvm": open(f, "rb").read()}
@@ -129,7 +134,8 @@ def run(tier):
     rep.sample({"file": os.path.basename(mods[0][1]), "fault": "flip body bit 0"})
     rep.sample({"file": os.path.basename(mods[0][1]), "fault": "burst offset 17 length 8 pattern 0b10110101"})
     rep.sample({"file": os.path.basename(mods[-1][1]), "fault": "truncate to 33 bytes"})
-    rep.assumptions += ["bursts longer than %d bits are covered by 4 complete pattern families per (offset,length), not all patterns" % lmax,
+    rep.assumptions += ["files larger than 8 KiB (the spread of real repository modules in the thorough tier) get every burst pattern up to 8 bits, the hand corpus up to %d" % lmax,
+                        "bursts longer than %d bits are covered by 4 complete pattern families per (offset,length), not all patterns" % lmax,
                         "header fields other than magic/version are outside the property (it speaks of 'after its header')",
                         "files: hand corpus%s" % (" + every 12th repo module by size" if tier == "thorough" else "")]
     if evals < 10000:
